@@ -504,6 +504,25 @@ class C07(Property):
         p = [val(0.1, 0.05) for _ in range(ns)] + [val(0.1, 0.05) for _ in range(nr)]
         return y, p
 
+    def _gen_prepost(self, rng, spec, es_kind):
+        """the change of variables of Square / Log / LinRel at a planted state: pre_processor on the concentrations,
+        post_processor on the transformed variable; the oracle evaluates the residual at pre_processor(state)"""
+        out = []
+        form = rng.choice(['square', 'log', 'linrel'])
+        kind = rng.choice(['eq', 'eq', 'viol_q', 'viol_total', 'viol_conc'])
+        c_, p, info = self._planted(rng, spec, 'lin', kind, narrow=True)
+        if info['kind'] == 'viol_q' and 'i' not in info:
+            info['kind'] = 'eq'
+        cf = [float(v) for v in c_]
+        if rng.random() < 0.3 and form != 'log':
+            cf[rng.randrange(len(cf))] = 0.0            # pre_processor at a zero concentration (sqrt(0), 0/m)
+        base = {'op': 'prepost', 'form': form, 'kind': info['kind'], 'sys': spec, 'sys_kind': es_kind,
+                'c': [rj(v) for v in c_], 'params': [rj(v) for v in p]}
+        out.append(dict(base, dir='pre', x=(cf if form != 'square' else [v if rng.random() < 0.8 else -v for v in cf])))
+        # post_processor on arbitrary solver variables (any sign for Square / LinRel, any real for Log)
+        out.append(dict(base, dir='post', x=[rng.uniform(-4.0, 4.0) for _ in cf]))
+        return out
+
     def _gen_history(self, rng, spec, es_kind):
         """a history on one object: start with the first k reactions, evaluate, add the rest in one or two `+=`, evaluate after
         each change — every formulation / reduction configuration, planted for the system AS IT IS at that step"""
@@ -570,6 +589,18 @@ class C07(Property):
                           'init': [rj(self._conc(rng, False)) for _ in range(ns)]})
             if nr >= 2 and ns <= 8 and nr <= 5 and rng.random() < 0.3:
                 cases.append(self._gen_history(rng, spec, es_kind))
+            if rng.random() < 0.35:
+                cases.extend(self._gen_prepost(rng, spec, es_kind))
+            if rng.random() < 0.25:
+                cases.append({'op': 'q2d', 'sys': spec, 'sys_kind': es_kind,
+                              'rows': [[rj(self._conc(rng, True)) for _ in range(ns)] for _ in range(rng.randint(1, 4))]})
+            if rng.random() < 0.25:
+                allk = sorted({0} | set(ELEMENT_KEYS) | {7, 16, 20, 47})
+                cases.append({'op': 'ckeys', 'sys': spec, 'sys_kind': es_kind, 'skip': rng.sample(allk, rng.randint(0, 3)),
+                              'n_none': rng.choice([0, 1, 1, 2]), 'none_pos': rng.randint(0, ns)})
+            if rng.random() < 0.25:
+                cases.append({'op': 'scd', 'sys': spec, 'sys_kind': es_kind,
+                              'Ks': [rj(F(rng.randint(1, 9999), 10 ** rng.randint(0, 9))) for _ in range(nr)]})
             if rng.random() < 0.5:
                 cases.append({'op': 'solver', 'sys': spec, 'sys_kind': es_kind,
                               'init': [rj(self._conc(rng, True)) for _ in range(ns)],
@@ -588,6 +619,9 @@ class C07(Property):
                         info['kind'] = 'eq'
                     cases.append({'op': 'f', 'form': form, 'kind': info['kind'], 'sys': spec, 'sys_kind': es_kind,
                                   'precipitates': [], 'y': [rj(v) for v in y], 'params': [rj(v) for v in p]})
+                    if kind != 'random' and rng.random() < 0.15:
+                        # the same state through new_eq_params=False (constants on the reactions); sometimes one parameter too many
+                        cases.append(dict(cases[-1], own=('extra' if rng.random() < 0.2 else 'ok')))
             if rng.random() < (0.6 if tier == 'quick' else 0.3) and ns <= 7 and nr <= 4:
                 # every formulation x every reduction configuration, at a planted equilibrium and at a planted violation
                 forms = rng.sample(['lin', 'log', 'square', 'linrel'], 3)
@@ -668,6 +702,19 @@ class C07(Property):
             return self._model_case_rref(c)
         if c['op'] == 'solver':
             return {'op': 'solver_params', 'init': c['init'], 'rxn_params': c['Ks'], 'src': c['sys']}
+        if c['op'] in ('prepost', 'q2d', 'ckeys', 'scd'):
+            es = build(c['sys'])
+            enc = encode(es)
+            if c['op'] == 'prepost':
+                NS = numsys(c['form'])
+                return {'op': 'pre_post', 'form': c['form'], 'dir': c['dir'], 'sys': enc, 'src': c['sys'], 'small': fbits(NS.small),
+                        'x': [fbits(unrj(v)) if not isinstance(v, float) else fbits(v) for v in c['x']],
+                        'params': [fbits(unrj(v)) for v in c['params']]}
+            if c['op'] == 'q2d':
+                return {'op': 'quotients2d', 'sys': enc, 'src': c['sys'], 'rows': c['rows']}
+            if c['op'] == 'ckeys':
+                return {'op': 'composition_keys', 'sys': enc, 'src': c['sys'], 'skip': c['skip'], 'n_none': c['n_none'], 'none_pos': c['none_pos']}
+            return {'op': 'stoichs_constants_default', 'sys': enc, 'src': c['sys'], 'rxn_params': c['Ks']}
         if c['op'] not in ('f', 'structure'):
             return None
         es = build(c['sys'])
@@ -688,12 +735,20 @@ class C07(Property):
             y = yy
         small = F(NS.small)
         mc = {'op': form + '_f', 'sys': enc, 'src': c['sys'], 'precipitates': c['precipitates']}
+        own = c.get('own')
+        Ks = p[es.ns:]
+        if own:          # new_eq_params=False: only init_concs are passed ('extra': one value too many -> AssertionError)
+            p = p[:es.ns] + ([F(3, 2)] if own == 'extra' else [])
         if form == 'log':
             if c['kind'] != 'precip':
                 y = [math.log(v) for v in y]
             mc.update({'small': fbits(NS.small), 'y': [fbits(v) for v in y], 'params': [fbits(v) for v in p]})
+            if own:
+                mc['own_params'] = [fbits(v) for v in Ks]
         else:
             mc.update({'small': rj(small), 'y': [rj(v) for v in y], 'params': [rj(v) for v in p]})
+            if own:
+                mc['own_params'] = [rj(v) for v in Ks]
         return mc
 
     # ------------------------------------------------------------------------- real code
@@ -717,9 +772,19 @@ class C07(Property):
                 return 'floats:' + json.dumps([float(sp.N(v, 30)) for v in r])
             except Exception as e:
                 return exc_name(e)
+        if op in ('pre_post', 'quotients2d', 'composition_keys', 'stoichs_constants_default'):
+            return self._impl_round7(es, mc)
         form = op[:-2]
         NS = numsys(form)
-        ns_obj = NS(es, precipitates=tuple(mc['precipitates']))
+        if 'own_params' in mc:      # the constants live on the reactions, new_eq_params=False
+            Ks = [bits2f(v) for v in mc['own_params']] if form == 'log' else [unrj(v) for v in mc['own_params']]
+            try:
+                es = build(mc['src'], Ks)
+                ns_obj = NS(es, precipitates=tuple(mc['precipitates']), new_eq_params=False)
+            except Exception as e:
+                return exc_name(e)
+        else:
+            ns_obj = NS(es, precipitates=tuple(mc['precipitates']))
         try:
             if form == 'log':
                 r = ns_obj.f([bits2f(v) for v in mc['y']], [bits2f(v) for v in mc['params']])
@@ -733,6 +798,39 @@ class C07(Property):
             return show_rat_list(r)
         except Exception as e:
             return exc_name(e)
+
+    def _impl_round7(self, es, mc):
+        import numpy as np
+        op = mc['op']
+        try:
+            if op == 'pre_post':
+                NS = numsys(mc['form'])
+                x = np.array([bits2f(v) for v in mc['x']])
+                params = np.array([bits2f(v) for v in mc['params']])
+                fn = NS(es).pre_processor if mc['dir'] == 'pre' else NS(es).post_processor
+                with np.errstate(all='ignore'):
+                    out, p2 = fn(x, params)
+                if list(map(float, p2)) != list(map(float, params)):
+                    return '!params-changed'
+                return 'floats:' + json.dumps([float(v) for v in out])
+            if op == 'quotients2d':
+                rows = np.array([[float(unrj(v)) for v in r] for r in mc['rows']])
+                q = es.equilibrium_quotients(rows)
+                return 'floats2:' + json.dumps([[float(v) for v in row] for row in q])
+            if op == 'composition_keys':
+                from chempy.chemistry import Substance, Species
+                subs = list(es.substances.values()) + [Species('Zz%d' % i) for i in range(mc['n_none'])]   # composition None
+                pos = mc.get('none_pos', 0) % (len(subs) + 1 - mc['n_none']) if mc['n_none'] else 0
+                if mc['n_none']:
+                    subs = subs[:pos] + subs[len(subs) - mc['n_none']:] + subs[pos:len(subs) - mc['n_none']]
+                return show_int_list(Substance.composition_keys(subs, tuple(mc['skip'])))
+            if op == 'stoichs_constants_default':
+                es2 = build(mc['src'], [unrj(v) for v in mc['rxn_params']])
+                A, ks = es2.stoichs_constants()
+                return '[' + ','.join(show_int_list(r) for r in A) + ']|' + show_rat_list(ks)
+        except Exception as e:
+            return exc_name(e)
+        return '!unknown-op'
 
     def _impl_multi(self, es, mc):
         out = []
@@ -768,6 +866,22 @@ class C07(Property):
             return self._same_multi(mc, io, mo)
         if mc['op'] == 'cfg_f':
             return self._same_cfg(mc, io, mo)
+        if mc['op'] == 'pre_post':
+            try:
+                a, b = json.loads(io[7:]), [bits2f(x) for x in json.loads(mo)]
+                return io.startswith('floats:') and len(a) == len(b) and all(close(x, z, 1e-12, 1e-300) for x, z in zip(a, b))
+            except Exception:
+                return io == mo
+        if mc['op'] == 'quotients2d':
+            try:
+                a = json.loads(io[8:])
+                b = [parse_rat_list(x + ']') if not x.endswith(']') else parse_rat_list(x) for x in mo[1:-1].replace('],[', ']|[').split('|')] if mo != '[]' else []
+                return io.startswith('floats2:') and len(a) == len(b) and all(
+                    len(u) == len(v) and all(close(x, z, 1e-12, 1e-300) for x, z in zip(u, v)) for u, v in zip(a, b))
+            except Exception:
+                return io == mo
+        if mc['op'] in ('composition_keys', 'stoichs_constants_default'):
+            return io == mo
         if mc['op'] == 'solver_params':
             try:
                 a, b = json.loads(io[7:]), parse_rat_list(mo)
@@ -924,7 +1038,47 @@ class C07(Property):
             return self._oracle_structure(c)
         if op == 'lintanh':
             return self._oracle_lintanh(c)
+        if op == 'prepost':
+            return self._oracle_prepost(c)
+        if op == 'q2d':
+            es = build(c['sys'])
+            if has_other_phase(es) or es.nr == 0:
+                return None
+            import numpy as np
+            N = net_matrix(c['sys'])
+            rows = [[unrj(v) for v in r] for r in c['rows']]
+            q = es.equilibrium_quotients(np.array([[float(v) for v in r] for r in rows]))
+            if len(q) != len(N):
+                return 'equilibrium_quotients(2-d) returned %d entries for %d reactions' % (len(q), len(N))
+            for ri, (qi, nu) in enumerate(zip(q, N)):
+                if len(qi) != len(rows):
+                    return 'equilibrium_quotients(2-d): %d values for %d states' % (len(qi), len(rows))
+                for v, r in zip(qi, rows):
+                    if not close(v, quotient(r, nu), 1e-12, 1e-300):
+                        return 'equilibrium_quotients(2-d): reaction %d gives %r, prod c^nu = %r' % (ri, float(v), float(quotient(r, nu)))
+            return None
+        if op == 'ckeys':
+            from chempy.chemistry import Substance, Species
+            es = build(c['sys'])
+            subs = [Species('Zz')] * c['n_none'] + list(es.substances.values())
+            got = Substance.composition_keys(subs, tuple(c['skip']))
+            want = sorted({k for s_ in es.substances.values() for k in s_.composition} - set(c['skip']))
+            if list(got) != want:
+                return 'composition_keys(..., skip_keys=%r) = %r, expected the sorted occurring keys without the skipped ones %r' % (c['skip'], got, want)
+            return None
+        if op == 'scd':
+            Ks = [unrj(v) for v in c['Ks']]
+            es2 = build(c['sys'], Ks)
+            if has_other_phase(es2):
+                return None
+            A, ks = es2.stoichs_constants()
+            if [[int(v) for v in row] for row in A] != net_matrix(c['sys']) or list(ks) != Ks:
+                return 'stoichs_constants() with defaults is not (net stoichiometry, [rxn.param])'
+            return None
         if op == 'solver':
+            msg = self._oracle_root_forwarding(c)
+            if msg:
+                return msg
             Ks = [unrj(v) for v in c['Ks']]
             init = [unrj(v) for v in c['init']]
             es2 = build(c['sys'], Ks)
@@ -965,19 +1119,36 @@ class C07(Property):
             return self._oracle_rref(c, es, state, p, want_q, want_t, N, B)
         NS = numsys(form)
         nsys = NS(es)
+        pp = list(p)
+        if c.get('own'):
+            # new_eq_params=False: the object's own constants (set on the reactions), params = init_concs only
+            es = build(c['sys'], list(K))
+            nsys = NS(es, new_eq_params=False)
+            pp = list(c0)
+            if c['own'] == 'extra':
+                try:
+                    nsys.f([F(1)] * ns if form != 'log' else [0.0] * ns, (pp + [F(3, 2)]) if form != 'log' else [float(v) for v in pp] + [1.5])
+                except AssertionError:
+                    return None
+                except Exception as e:
+                    return '%s(new_eq_params=False).f with ns+1 parameters raised %s, not AssertionError' % (NS.__name__, exc_name(e))
+                return '%s(new_eq_params=False).f accepted ns+1 parameters' % NS.__name__
         exact = form in ('lin', 'square')
         try:
             if exact:
-                r = nsys.f(list(y), list(p))
+                r = nsys.f(list(y), list(pp))
             elif form == 'linrel':
                 yy = self._linrel_y(es, y, p)
                 if yy is None:
                     return None
-                r = [float(v) for v in nsys.f(yy, list(p))]
+                r = [float(v) for v in nsys.f(yy, list(pp))]
             else:
                 if any(v <= 0 for v in y) or any(k <= 0 for k in K):
                     return None
-                r = [float(v) for v in nsys.f([math.log(v) for v in y], [float(v) for v in p])]
+                if c.get('own'):
+                    es = build(c['sys'], [float(k) for k in K])
+                    nsys = NS(es, new_eq_params=False)
+                r = [float(v) for v in nsys.f([math.log(v) for v in y], [float(v) for v in pp])]
         except Exception as e:
             return '%s.f raised %s: %s' % (NS.__name__, exc_name(e), str(e)[:100])
         if len(r) != nr + len(keys):
@@ -993,8 +1164,8 @@ class C07(Property):
             # same through sympy.Rational (the type the symbolic solver path uses)
             import sympy as sp
             if all(v != 0 for v in state):
-                rs = nsys.__class__(es, backend=sp).f([sp.Rational(v.numerator, v.denominator) for v in y],
-                                                       [sp.Rational(v.numerator, v.denominator) for v in p])
+                rs = nsys.__class__(es, backend=sp, new_eq_params=not c.get('own')).f(
+                    [sp.Rational(v.numerator, v.denominator) for v in y], [sp.Rational(F(v).numerator, F(v).denominator) for v in pp])
                 if [F(int(sp.numer(v)), int(sp.denom(v))) for v in rs] != [F(v) for v in r]:
                     return '%s.f differs between Fraction and sympy.Rational arguments' % NS.__name__
             return None
@@ -1105,6 +1276,89 @@ class C07(Property):
             M2 = [[rA[i, j] for j in range(rA.cols)] + [rb[i]] for i in range(rA.rows)]
             if not same_row_space(M1, M2) or (M2 and sp.Matrix(M2).rank() != len(M2)):
                 return 'linear_rref(B, B c0) is not a row-equivalent independent system'
+        return None
+
+    def _oracle_prepost(self, c):
+        """residual(pre_processor(state)) vanishes iff the state is an equilibrium with the initial totals, and
+        post_processor(pre_processor(state)) gives the state back (Log: shifted by `small`)"""
+        import numpy as np
+        es = build(c['sys'])
+        if has_other_phase(es) or es.nr == 0 or c['dir'] != 'pre':
+            return None
+        form = c['form']
+        NS = numsys(form)
+        nsys = NS(es)
+        ns, nr = es.ns, es.nr
+        N = net_matrix(c['sys'])
+        keys, B = comp_matrix(es)
+        cc = [unrj(v) for v in c['c']]
+        p = [unrj(v) for v in c['params']]
+        c0, K = p[:ns], p[ns:]
+        if form == 'linrel' and self._linrel_y(es, cc, p) is None:
+            return None
+        params = np.array([float(v) for v in p])
+        with np.errstate(all='ignore'):
+            x, _ = nsys.pre_processor(np.array([float(v) for v in cc]), params)
+            back, _ = nsys.post_processor(x, params)
+        shift = NS.small if form == 'log' else 0.0
+        for j, (b, v) in enumerate(zip(back, cc)):
+            if not close(b, float(v) + shift, 1e-12, 1e-300):
+                return '%s: post_processor(pre_processor(c))[%d] = %r for c = %r' % (NS.__name__, j, float(b), float(v))
+        try:
+            r = [float(v) for v in nsys.f(list(x), list(params))]
+        except Exception as e:
+            return '%s.f(pre_processor(state)) raised %s' % (NS.__name__, exc_name(e))
+        want = [quotient(cc, N[i]) == K[i] for i in range(nr)] + [dot(row, cc) == dot(row, c0) for row in B]
+        if len(r) != len(want):
+            return '%s.f(pre_processor(state)) has %d equations, expected %d' % (NS.__name__, len(r), len(want))
+        scale = [1.0] * nr + [1.0 + sum(abs(b) * float(abs(v)) for b, v in zip(row, cc)) + sum(abs(b) * float(abs(v)) for b, v in zip(row, c0)) for row in B]
+        if form == 'log':
+            scale = [1.0 + 4 * sum(abs(math.log(v)) for v in cc) for _ in range(nr)] + scale[nr:]
+        for idx, (v, w) in enumerate(zip(r, want)):
+            if w and not abs(v) <= 1e-9 * scale[idx]:
+                return '%s.f(pre_processor(state)): residual %d is %r at a state satisfying its equation' % (NS.__name__, idx, v)
+            if not w and not abs(v) >= 1e-7 * scale[idx]:
+                return '%s.f(pre_processor(state)): residual %d is %r at a state violating its equation' % (NS.__name__, idx, v)
+        return None
+
+    def _oracle_root_forwarding(self, c):
+        """EqSystem.root without a ready solver: the formulation and the reduction configuration asked for are the ones handed to
+        get_neqsys, the parameter vector is init_concs ++ [rxn.param], and the failure warning appears exactly when the solver
+        reports no success"""
+        import warnings
+        import numpy as np
+        Ks = [unrj(v) for v in c['Ks']]
+        init = [unrj(v) for v in c['init']]
+        es2 = build(c['sys'], Ks)
+        if has_other_phase(es2):
+            return None
+        h = sum(v.numerator for v in init) % 8
+        NS = numsys(['lin', 'log', 'square', 'linrel'][h % 4])
+        re_, rp_ = bool(h & 1), bool(h & 4)
+        for success in (True, False):
+            box = {}
+
+            class Capture:
+                def solve(self, x0, params, **kw):
+                    box['params'] = [float(v) for v in params]
+                    return np.asarray(x0, dtype=float), {'success': success}
+
+            def fake_get_neqsys(neqsys_type, **kw):
+                box['type'], box['kw'] = neqsys_type, kw
+                return Capture()
+            es2.get_neqsys = fake_get_neqsys
+            with warnings.catch_warnings(record=True) as w:
+                warnings.simplefilter('always')
+                x, sol, sane = es2.root([float(v) for v in init], NumSys=NS, rref_equil=re_, rref_preserv=rp_)
+            del es2.get_neqsys
+            kw = box.get('kw', {})
+            if box.get('type') != 'chained_conditional' or kw.get('NumSys') is not NS or kw.get('rref_equil') != re_ or kw.get('rref_preserv') != rp_:
+                return 'root(NumSys=%s, rref_equil=%s, rref_preserv=%s) asked get_neqsys for %r %r' % (NS.__name__, re_, rp_, box.get('type'), kw)
+            if box.get('params') != [float(v) for v in init + Ks]:
+                return 'root() hands params %r to the solver, expected init_concs ++ [rxn.param]' % box.get('params')
+            warned = any('indicated as failed' in str(m.message) for m in w)
+            if warned == success:
+                return 'root(): solver success=%s but failure warning %s' % (success, 'emitted' if warned else 'missing')
         return None
 
     def _oracle_history(self, c):
@@ -1235,7 +1489,8 @@ class C07(Property):
 
     def classify(self, c):
         if c['op'] == 'f':
-            return 'f:%s:%s:%s%s' % (c['form'], c['kind'], c['sys_kind'], ':dup' if has_repeated_species(c['sys']) else '')
+            return 'f:%s:%s:%s%s%s' % (c['form'], c['kind'], c['sys_kind'], ':dup' if has_repeated_species(c['sys']) else '',
+                                       ':own-' + c['own'] if c.get('own') else '')
         if c['op'] == 'history':
             return 'history:%d-adds:%d-evals' % (sum(1 for t in c['steps'] if t['do'] == 'add'), sum(1 for t in c['steps'] if t['do'] == 'eval'))
         if c['op'] == 'rref':
